@@ -22,6 +22,17 @@ def config(name, rng, tier, seed=0):
                                             {"per_data_generation": 2, "per_estimator_unit": 2, "per_estimator_execution": 2}])
         base["n_sample"] = 2
         return base
+    if name == "nested_threads_weighted":
+        # data-dependent weights (derived from every repetition's data) while the repetitions of one case are estimated
+        # by threads that share the case's option objects
+        base["cases"] = [_lossmin(rng.choice(["fast_se", "se"]), mode_weight=rng.choice(["inverse_sample_covariance", "inverse_unbiased_covariance"]), max_iteration=20),
+                         _lossmin("fast_se", mode_weight="inverse_sample_covariance", para=False, max_iteration=20)]
+        base["parallel_mode"] = rng.choice([{"per_estimator_unit": 2, "per_estimator_execution": 3}, {"per_sample_unit": 2, "per_estimator_execution": 2},
+                                            {"per_sample_unit": 2, "per_data_generation": 2, "per_estimator_execution": 4}])
+        base["n_sample"] = 2
+        base["n_rep"] = 4
+        base["num_data"] = [100, 1000]
+        return base
     if name == "batching_weighted_loss":
         # repetitions carried through one loss object inside a batch but not across batches (defect D3's shape)
         base["cases"] = [_lossmin("fast_se", mode_weight=rng.choice(["inverse_sample_covariance", "inverse_unbiased_covariance"])), _lossmin("se", mode_weight="inverse_sample_covariance", max_iteration=20)]
